@@ -42,7 +42,8 @@ def _levels15():
 
 
 def _world_desc(w):
-    return {"default(%s)" % w["dsrc"]: _txt(w["d"]), "users": {("u%d" % u["n"]): _txt(u["l"]) for u in w["users"]},
+    return {"default(%s)" % w["dsrc"]: _txt(w["d"]) + (" / * line: " + _txt(w.get("d2", [])) if w["dsrc"] == "both" else ""),
+            "users": [("u%d" % u["n"], "s%d" % u.get("sec", u["n"]), _txt(u["l"])) for u in w["users"]],
             "msgs": ["%s %s/%s level=%r" % (m["k"], m["c"], m["n"], _txt(m["lv"])) for m in w["msgs"]]}
 
 
